@@ -36,6 +36,7 @@ type capCore struct {
 	writing    map[string]int // handles open for writing, per name
 	maxWriting int
 	lossyClose bool // a failing Close of a written file loses the second half of it
+	persistent bool // once a call has failed, every later call of the same kind fails as well
 }
 
 func capKey(ifs []string) string {
@@ -64,6 +65,11 @@ func (c *capCore) hit(kind, name string) error {
 		}
 		i = c.kindSeen
 		c.kindSeen++
+	}
+	if c.persistent && c.fired != "" && kind == c.fired {
+		// a fault that does not go away (disk full, permission revoked): every later call of that kind fails too
+		c.t.Stat("fault:fs." + kind + "(again)")
+		return errInjectedFS
 	}
 	if i == c.faultAt && c.fired == "" {
 		c.fired = kind
